@@ -317,14 +317,14 @@ def items(tier, rng):
     cap = 120 if q else 2000
     for nm, (n, pot) in W3.items():
         for directed in (True, False):
-            out.append({"name": "fw_" + nm, "harness": "h_equiv", "max_paths": cap,
+            out.append({"name": "fw_" + nm, "harness": "h_equiv", "max_paths": cap, "extra_witness": True,
                         "params": {"func": "floyd_warshall", "n": n, "pot": pot, "weighted": True, "sym_presence": False, "directed": directed}})
         for target in (None, n - 1):
             for func in ("bellman_ford", "dijkstra_edges"):
-                out.append({"name": func + "_" + nm, "harness": "h_equiv", "max_paths": cap,
+                out.append({"name": func + "_" + nm, "harness": "h_equiv", "max_paths": cap, "extra_witness": True,
                             "params": {"func": func, "n": n, "pot": pot, "weighted": True, "sym_presence": False, "target": target}})
         for af in (False, True):
-            out.append({"name": "kruskal_" + nm, "harness": "h_equiv", "max_paths": cap,
+            out.append({"name": "kruskal_" + nm, "harness": "h_equiv", "max_paths": cap, "extra_witness": True,
                         "params": {"func": "kruskal", "n": n, "pot": pot, "weighted": True, "sym_presence": False, "allow_forest": af}})
         out.append({"name": "pagerank_" + nm, "harness": "h_equiv", "max_paths": cap,
                     "params": {"func": "pagerank_edges", "n": n, "pot": pot, "weighted": False, "sym_presence": False}})
